@@ -74,6 +74,8 @@ type c20Input struct {
 	CloseMs    int          `json:"close_ms,omitempty"`
 	// sim
 	Race bool `json:"race,omitempty"`
+	// sim: run the child on the real clock (no synctest bubble)
+	Realtime bool `json:"realtime,omitempty"`
 	// perform (forced performs, in virtual ms) / resave (the second plan)
 	Performs []c20Inc `json:"performs,omitempty"`
 	// perform: after the listed performs, tail_blocks further blocks each carrying a report with tail_n results
@@ -939,7 +941,7 @@ func c20Run(t *testing.T, in c20Input, simExe string) any {
 		if err != nil {
 			return c20SimRecord{Result: c20ChildResult{Stage: "save", Err: err.Error()}}
 		}
-		return c20RunSim(t, b, simExe, in.Race)
+		return c20RunSim(t, b, simExe, in.Race, in.Realtime)
 	}
 	panic("unknown C20 case kind " + in.Kind)
 }
@@ -1150,7 +1152,34 @@ func TestC20(t *testing.T) {
 		}
 		sims = append(sims, simCase{in, self})
 	}
-	nGen := tierN(2, 31) // with the three shipped plans, the corpus witness, the negative and the late-transmit plan and (thorough) three race-build runs: 8 / 40 simulations
+	{ // a fast chain on the REAL clock (no bubble): 10 nodes, 2 ms blocks, 3000 upkeeps in the summary — what takes wall
+		// time (writing the summary, closing the nodes one after the other, closing the log files) takes several block
+		// cadences while the block source keeps ticking
+		p := c20FastChainPlan()
+		p.Node.Count = 10
+		p.ConfigEvents, p.LogEvents = nil, nil
+		p.GenerateUpkeeps = []config.GenerateUpkeepEvent{{
+			Event: config.Event{Type: config.GenerateUpkeepEventType, TriggerBlock: big.NewInt(p.Blocks.Genesis.Int64() + 2)},
+			Count: 3000, StartID: big.NewInt(100), EligibilityFunc: "never", UpkeepType: config.LogTriggerUpkeepType,
+			LogTriggeredBy: "x", Expected: config.NoneExpected,
+		}}
+		p.Blocks.Cadence = config.Duration(2 * time.Millisecond)
+		p.Blocks.Duration, p.Blocks.EndPadding = 200, 20
+		in, err := c20PlanInput("sim", "fast-chain-realtime", p, true)
+		if err != nil {
+			t.Fatal(err)
+		}
+		in.Realtime = true
+		sims = append(sims, simCase{in, self})
+	}
+	{ // a fast chain: winding the run up takes many block cadences
+		in, err := c20PlanInput("sim", "fast-chain", c20FastChainPlan(), true)
+		if err != nil {
+			t.Fatal(err)
+		}
+		sims = append(sims, simCase{in, self})
+	}
+	nGen := tierN(0, 29) // with the three shipped plans, the corpus witness, the negative and the late-transmit plan and (thorough) three race-build runs: 8 / 40 simulations
 	for i := 0; i < nGen; i++ {
 		p := c20GenRunnablePlan(r, true)
 		in, err := c20PlanInput("sim", fmt.Sprintf("gen%d", i), p, true)
